@@ -139,6 +139,37 @@ func RunStream(c *Ctx, cfg StreamCfg, handle func(w *Worker, sc StrCase, res *[s
 			})
 		}
 	}
+	// (a2) COMPLETE set of base-only vectors of every version (729 / 2,592 / 2,592 / 104,976), under
+	// their own header and, for v3, under the sibling 3.x header: the "everyday" vectors a lookup
+	// table, fast path or cache would special-case
+	if cfg.Cover {
+		for vi, v := range spec.Versions {
+			vi, v := vi, v
+			nb := 0
+			total := 1
+			for _, me := range v.Metrics {
+				if me.Mandatory {
+					nb++
+					total *= len(me.Values)
+				}
+			}
+			c.Parallel("base-complete-"+v.Name, total, 1024, func(w *Worker, i int) {
+				a := v.ZeroAssign()
+				k := i
+				for m := 0; m < nb; m++ {
+					n := len(v.Metrics[m].Values)
+					a[m] = uint8(k % n)
+					k /= n
+				}
+				s := v.Canonical(a)
+				do(w, StrCase{s, vi, "base-complete"})
+				if v.ID == spec.V30 || v.ID == spec.V31 {
+					other := spec.Versions[spec.V30+spec.V31-v.ID]
+					do(w, StrCase{other.Header + s[len(v.Header):], vi, "base-complete-sibling-header"})
+				}
+			})
+		}
+	}
 	// (b) complete neighbourhoods of anchors
 	for vi, v := range spec.Versions {
 		anc := anchors(c.Rand("anchors", v.Name), v, cfg.Anchors)
@@ -237,7 +268,7 @@ func parseSteps(s string) []Step { return []Step{{Op: "parse", S: s}} }
 // ---------------------------------------------------------------- C01
 
 func CheckC01(c *Ctx) {
-	cfg := StreamCfg{Anchors: c.Pick(8, 120), Random: c.Pick(600_000, 30_000_000), ValidBias: 10, Cover: true}
+	cfg := StreamCfg{Anchors: c.Pick(16, 160), Random: c.Pick(2_000_000, 40_000_000), ValidBias: 10, Cover: true}
 	RunStream(c, cfg, func(w *Worker, sc StrCase, res *[spec.NVersions]PerVer) {
 		for vi := range res {
 			r := &res[vi]
@@ -301,7 +332,7 @@ func acceptedBy(res *[spec.NVersions]PerVer) []string {
 // ---------------------------------------------------------------- C06
 
 func CheckC06(c *Ctx) {
-	cfg := StreamCfg{Anchors: c.Pick(4, 40), Random: c.Pick(400_000, 20_000_000), ValidBias: 70, Cover: true}
+	cfg := StreamCfg{Anchors: c.Pick(6, 40), Random: c.Pick(1_500_000, 25_000_000), ValidBias: 70, Cover: true}
 	type cell struct{ ex, om int64 }
 	RunStream(c, cfg, func(w *Worker, sc StrCase, res *[spec.NVersions]PerVer) {
 		for vi := range res {
@@ -393,7 +424,7 @@ func compactCells(c *Ctx) {
 // ---------------------------------------------------------------- C08
 
 func CheckC08(c *Ctx) {
-	cfg := StreamCfg{Anchors: c.Pick(4, 40), Random: c.Pick(400_000, 20_000_000), ValidBias: 75, Cover: true}
+	cfg := StreamCfg{Anchors: c.Pick(6, 40), Random: c.Pick(1_500_000, 25_000_000), ValidBias: 75, Cover: true}
 	RunStream(c, cfg, func(w *Worker, sc StrCase, res *[spec.NVersions]PerVer) {
 		for vi := range res {
 			r := &res[vi]
@@ -488,7 +519,7 @@ func CheckC08(c *Ctx) {
 // ---------------------------------------------------------------- C13
 
 func CheckC13(c *Ctx) {
-	cfg := StreamCfg{Anchors: c.Pick(6, 80), Random: c.Pick(500_000, 25_000_000), ValidBias: 35, Cover: true}
+	cfg := StreamCfg{Anchors: c.Pick(10, 80), Random: c.Pick(1_500_000, 25_000_000), ValidBias: 35, Cover: true}
 	RunStream(c, cfg, func(w *Worker, sc StrCase, res *[spec.NVersions]PerVer) {
 		n := 0
 		for vi := range res {
